@@ -456,8 +456,61 @@ func (l *Loaded) resolveType(pkg *ssa.Package, name string) types.Type {
 }
 
 // selectSpecs returns the function contracts to verify for a property ("" = all), in file order.
+// censusSpecs: for every `census T property ID` directive of the property, a lock-discipline-only contract
+// for each method of T: the method's own contract if it has one (only its lockset obligations then count for
+// the property unless it is tagged with it), otherwise a synthesised one with an unrestricted frame.
+func (l *Loaded) censusSpecs(prop string, have map[string]bool) []*FuncSpec {
+	var out []*FuncSpec
+	for _, c := range l.specs.Census {
+		if c.Prop != prop {
+			continue
+		}
+		var keys []string
+		for k, fn := range l.fns {
+			if fn.Pkg == nil || fn.Pkg.Pkg.Path() != c.Pkg || fn.Signature.Recv() == nil || fn.Parent() != nil || len(fn.Blocks) == 0 {
+				continue
+			}
+			rt := fn.Signature.Recv().Type()
+			if p, ok := rt.(*types.Pointer); ok {
+				rt = p.Elem()
+			}
+			n, ok := rt.(*types.Named)
+			if !ok || n.Obj().Name() != c.Type {
+				continue
+			}
+			keys = append(keys, k)
+		}
+		sort.Strings(keys)
+		for _, k := range keys {
+			if have[k] {
+				continue
+			}
+			have[k] = true
+			if sp, ok := l.specs.Funcs[k]; ok && !sp.Trusted {
+				if sp.Opaque {
+					continue
+				}
+				cp := *sp
+				cp.CensusOnly = !contains(sp.Props, prop)
+				cp.Props = append(append([]string{}, sp.Props...), prop)
+				out = append(out, &cp)
+				continue
+			}
+			fn := l.fns[k]
+			sp := &FuncSpec{Key: k, RawName: fn.Name(), Props: []string{prop}, ModAll: true, Loops: map[int]*LoopSpec{}, File: c.File, Line: c.Line, Pkg: c.Pkg, CensusOnly: true, Synth: true}
+			for range fn.Params {
+				sp.Formals = append(sp.Formals, "_")
+			}
+			out = append(out, sp)
+		}
+	}
+	return out
+}
+
 func (l *Loaded) selectSpecs(prop string, re *regexp.Regexp) []*FuncSpec {
 	var out []*FuncSpec
+	have := map[string]bool{}
+	defer func() {}()
 	for _, sp := range l.specs.Order {
 		if sp.Trusted || sp.Opaque {
 			continue
@@ -468,7 +521,16 @@ func (l *Loaded) selectSpecs(prop string, re *regexp.Regexp) []*FuncSpec {
 		if re != nil && !re.MatchString(sp.Key) {
 			continue
 		}
+		have[sp.Key] = true
 		out = append(out, sp)
+	}
+	if prop != "" {
+		for _, sp := range l.censusSpecs(prop, have) {
+			if re != nil && !re.MatchString(sp.Key) {
+				continue
+			}
+			out = append(out, sp)
+		}
 	}
 	return out
 }
